@@ -516,3 +516,70 @@ package proto
 //@   modifies w.bufOffset, w.vec, w.buf.Buf, all(input)
 //@   invariant -1 <= rangeindex && rangeindex < len(input) && wRI(w)
 //@   invariant rangeindex >= 0 ==> input[rangeindex].Data.nrows == b.Rows {each-written-column-has-the-block-row-count}
+
+// ---------------------------------------------------------------------------
+// Remaining decoders: thin safety contracts (C06) - weakest preconditions on the input bytes,
+// every index/slice/nil/alloc/overflow obligation of the body, and the row count after success.
+
+//@ -- FixedString(N): N is chosen by the caller's typed target (inference only ever creates the
+//@ -- fixed-size variants), so it is a precondition, not hostile input; the allocation is rows * N
+//@ contract (c *ColFixedStr) DecodeColumn(r, rows) (err) props(C06,C07,C08)
+//@   requires c != nil && r != nil && 0 <= rows && rows <= maxRowsInBLock && 0 <= c.Size && c.Size <= 16777215
+//@   modifies c.Buf, contents(c.Buf), r.pos, r.failed, r.b.Buf
+//@   alloc 100000000 * 16777215
+//@   ensures err == nil ==> len(c.Buf) == rows * c.Size [C06] {rows-times-size-bytes}
+//@   ensures err == nil ==> r.failed == old(r.failed)
+//@   ensures old(r.pos) <= r.pos && r.pos <= r.end
+
+//@ contract (c *ColRaw) DecodeColumn(r, rows) (err) props(C06,C07,C08)
+//@   requires c != nil && r != nil && 0 <= rows && rows <= maxRowsInBLock && 0 <= c.Size && c.Size <= 16777215
+//@   modifies c.Count, c.Data, contents(c.Data), r.pos, r.failed, r.b.Buf
+//@   alloc 100000000 * 16777215
+//@   ensures err == nil ==> c.Count == rows && len(c.Data) == rows * c.Size [C06] {rows}
+//@   ensures err == nil ==> r.failed == old(r.failed)
+//@   ensures old(r.pos) <= r.pos && r.pos <= r.end
+
+//@ contract (c *ColNothing) DecodeColumn(r, rows) (err) props(C06,C07,C08)
+//@   requires c != nil && r != nil && 0 <= rows && rows <= maxRowsInBLock
+//@   modifies *c, r.pos, r.failed, r.b.Buf
+//@   alloc 100000000
+//@   ensures (*c) == rows [C06] {rows}
+//@   ensures err == nil ==> r.failed == old(r.failed)
+//@   ensures old(r.pos) <= r.pos && r.pos <= r.end
+
+//@ contract (c *ColInterval) DecodeColumn(r, rows) (err) props(C06,C07,C08)
+//@   requires c != nil && r != nil && 0 <= rows && rows <= maxRowsInBLock && len(c.Values) == 0
+//@   modifies c.Values, contents(c.Values), r.pos, r.failed, r.b.Buf
+//@   alloc 800000000
+//@   ensures err == nil ==> len(c.Values) == rows [C06] {rows}
+//@   ensures err == nil ==> r.failed == old(r.failed)
+//@   ensures old(r.pos) <= r.pos && r.pos <= r.end
+
+//@ contract (c *ColPoint) DecodeColumn(r, rows) (err) props(C06,C07,C08)
+//@   requires c != nil && r != nil && 0 <= rows && rows <= maxRowsInBLock && len(c.X) == 0 && len(c.Y) == 0
+//@   modifies c.X, c.Y, contents(c.X), contents(c.Y), r.pos, r.failed, r.b.Buf
+//@   alloc 1600000000
+//@   ensures err == nil ==> len(c.X) == rows && len(c.Y) == rows [C06] {rows}
+//@   ensures err == nil ==> r.failed == old(r.failed)
+//@   ensures old(r.pos) <= r.pos && r.pos <= r.end
+
+//@ contract (c *ColJSONStr) DecodeColumn(r, rows) (err) props(C06,C07,C08)
+//@   requires c != nil && r != nil && 0 <= rows && rows <= maxRowsInBLock
+//@   modifies c.Str, contents(c.Str.Buf), r.pos, r.failed, r.b.Buf
+//@   ensures err == nil ==> len(c.Str.Pos) == rows [C06] {rows}
+//@   ensures err == nil ==> r.failed == old(r.failed)
+//@   ensures old(r.pos) <= r.pos && r.pos <= r.end
+
+//@ -- non-generic LowCardinality: dictionary and keys are decoded with counts read from the stream
+//@ -- (each validated against the caps); after success the column reports the block's row count
+//@ valid (c *ColLowCardinalityRaw): c != nil ==> c.Index != nil
+//@ contract (c *ColLowCardinalityRaw) Keys() (k) props(C06)
+//@   inline
+//@ contract (c *ColLowCardinalityRaw) DecodeColumn(r, rows) (err) props(C06,C07,C08)
+//@   requires c != nil && r != nil && 0 <= rows && rows <= maxRowsInBLock
+//@   requires c.Index.nrows == 0 && len(c.Keys8) == 0 && len(c.Keys16) == 0 && len(c.Keys32) == 0 && len(c.Keys64) == 0
+//@   modifies c.Key, c.Keys8, c.Keys16, c.Keys32, c.Keys64, contents(c.Keys8), contents(c.Keys16), contents(c.Keys32), contents(c.Keys64), c.Index.nrows, r.pos, r.failed, r.b.Buf
+//@   ensures err == nil && rows > 0 ==> c.Key <= 3 [C06] {valid-key-kind}
+//@   ensures err == nil && rows > 0 ==> (c.Key == 0 ==> len(c.Keys8) == rows) && (c.Key == 1 ==> len(c.Keys16) == rows) && (c.Key == 2 ==> len(c.Keys32) == rows) && (c.Key == 3 ==> len(c.Keys64) == rows) [C06] {keys-column-has-the-block-row-count}
+//@   ensures err == nil ==> r.failed == old(r.failed)
+//@   ensures old(r.pos) <= r.pos && r.pos <= r.end
